@@ -306,19 +306,6 @@ func c06RunLaw(ctx *Ctx, c c06Case) {
 	}
 }
 
-func sortedKeys(m map[string]any) []string {
-	ks := make([]string, 0, len(m))
-	for k := range m {
-		ks = append(ks, k)
-	}
-	for i := 1; i < len(ks); i++ {
-		for j := i; j > 0 && ks[j] < ks[j-1]; j-- {
-			ks[j], ks[j-1] = ks[j-1], ks[j]
-		}
-	}
-	return ks
-}
-
 func TestC06(t *testing.T) {
 	r := newRec("C06",
 		"exhaustive over operand forms: a form is (value ∈ {true,false,empty,non-Boolean singleton,multi-item}) × (source ∈ {literal, FHIR boolean element, FHIR choice element, FHIR element variable, System variable, computed, function result, absent path}); {and,or,xor,implies} × every ordered pair of the forms, not() and the criteria of where/exists/all/iif and EvaluateAsBool × every form; plus rapid-generated nested formulas (depth ≤ 3) for commutativity, De Morgan, implies-as-or and double negation.  Cells that cannot exist (a multi-item literal, an empty FHIR element) are absent from the table.  non-trivial = at least one operand is not a literal (laws: formula longer than 20 characters with a non-error value); every cell is distinct",
